@@ -174,14 +174,17 @@ def handleOp (st : St) (l : Line) : Option (St × List String) := do
     else pure (st, ["none"])
   | "setattrs" =>
     -- the node's attributes replaced by `n` entries and its metadata stored again: a V3 document keeps its key, a V2
-    -- node's `.zattrs` exists afterwards iff there are attributes
+    -- group's `.zattrs` exists afterwards iff there are attributes
     let pre := prefixOfPath (← l.get "p")
     let n := ((l.get "n").bind (·.toNat?)).getD 0
     match m.get (pre ++ kZarrJson) with
     | some v => if v == [1] || v == [2] then pure (st, ["ok"]) else pure (st, ["none"])
     | none =>
-      if (m.get (pre ++ kZgroup)).isSome || (m.get (pre ++ kZarray)).isSome then
+      if (m.get (pre ++ kZgroup)).isSome then
         pure ({ kv := if n > 0 then m.put (pre ++ kZattrs) [5] else m.erase (pre ++ kZattrs) }, ["ok"])
+      else if (m.get (pre ++ kZarray)).isSome then
+        -- an ARRAY is stored with the default options, which add the `_zarrs` attribute: its attributes are never empty
+        pure ({ kv := m.put (pre ++ kZattrs) [5] }, ["ok"])
       else pure (st, ["none"])
   | "rmnode" =>
     let pre := prefixOfPath (← l.get "p")
